@@ -135,6 +135,11 @@ class Prop:
             yield dict(kind="hist", univ=c["univ"], ops=c["ops"], corpus=c["id"])
         for h in M.late_collision_hists():
             yield dict(kind="hist", univ=h["univ"], ops=h["ops"], label="late-collision")
+        tg = M.typed_collision_hists()
+        for gi, g in enumerate(tg):
+            if quick and gi % 3 != 0 and gi < len(tg) - 2:
+                continue
+            yield dict(kind="alts", univ=g["univ"], setup=g["setup"], alts=g["alts"], label=g["label"])
         for c in RAW_CORPUS:
             yield dict(kind="probe", univ=c["univ"], setup=c["setup"], typed=c["typed"], only=c["only"], corpus=c["id"], label="corpus " + c["id"])
         # (b) invalid arguments
@@ -298,7 +303,7 @@ class Prop:
                 k = op[0] + ("" if res[0] == 0 else ":" + H.ERR_NAMES.get(res[1], str(res[1])))
                 kinds[k] = kinds.get(k, 0) + 1
             top = max(kinds, key=kinds.get) if kinds else ""
-            stats = dict(kind="single-op group", nodes=len(desc["setup"]) - 4, label=desc.get("label", ""), most_frequent=top,
+            stats = dict(kind="single-op group", nodes=sum(1 for o in desc["setup"] if o[0] == "add"), label=desc.get("label", ""), most_frequent=top,
                          refused_share=round(refused / max(1, len(runs)), 1))
             nontrivial = refused > 0
             if fails:
